@@ -37,8 +37,16 @@ pub fn channels<T: DeserializeOwned + Serialize + 'static>(text: &str) -> Vec<(&
     out.push(("JsonPretty::from_slice", show(guarded({ let t = t.clone(); move || in_toto::interchange::JsonPretty::from_slice::<T>(t.as_bytes()) }))));
     out.push(("JsonPretty::from_reader", show(guarded({ let t = t.clone(); move || in_toto::interchange::JsonPretty::from_reader::<_, T>(std::io::Cursor::new(t.into_bytes())) }))));
     out.push(("JsonPretty::deserialize", show(guarded({ let t = t.clone(); move || serde_json::from_str::<Value>(&t).map_err(|_| ()).and_then(|v| in_toto::interchange::JsonPretty::deserialize::<T>(&v).map_err(|_| ())) }))));
-    // a reader that hands out one byte per call (a pipe, a socket)
+    // readers that hand out their bytes in portions (a pipe, a socket, two chained sources): one byte per
+    // call, and two portions cut in the middle and just before the end
     out.push(("from_reader(1 byte at a time)", show(guarded({ let t = t.clone(); move || serde_json::from_reader::<_, T>(OneByte(t.into_bytes(), 0)) }))));
+    out.push(("Json::from_reader(1 byte at a time)", show(guarded({ let t = t.clone(); move || Json::from_reader::<_, T>(OneByte(t.into_bytes(), 0)) }))));
+    out.push(("JsonPretty::from_reader(1 byte at a time)", show(guarded({ let t = t.clone(); move || in_toto::interchange::JsonPretty::from_reader::<_, T>(OneByte(t.into_bytes(), 0)) }))));
+    for (name, at) in [("Json::from_reader(two portions, middle)", t.len() / 2), ("Json::from_reader(two portions, last byte apart)", t.len().saturating_sub(1))] {
+        use std::io::Read;
+        let (a, b) = (t.as_bytes()[..at].to_vec(), t.as_bytes()[at..].to_vec());
+        out.push((name, show(guarded(move || Json::from_reader::<_, T>(std::io::Cursor::new(a).chain(std::io::Cursor::new(b)))))));
+    }
     out
 }
 
@@ -237,7 +245,7 @@ pub fn run(cfg: &Cfg) {
     let mut sink = Sink::new(&cfg.out);
     let mut r = Rng::new(cfg.seed);
     let pool = key_pool(0);
-    let n = if cfg.thorough { 3000 } else { 250 };
+    let n = if cfg.thorough { 3000 } else { 180 };
     for i in 0..n {
         let layout = gen_layout(&mut r, &pool);
         let lj = serde_json::to_value(&layout).unwrap();
